@@ -176,6 +176,8 @@ def run(ctx):
         terms = []
         for c in cases:
             ast = None
+            if conflict(c["in"]["sessions"]):
+                state["stats"]["input_with_localpref_conflict"] = state["stats"].get("input_with_localpref_conflict", 0) + 1
             if c["in"]["ok"]:
                 try:
                     ast = fp.parse(c["in"]["text"])
@@ -208,7 +210,7 @@ def run(ctx):
     cases, mism = harness(n, ctx.seed, "h", True)
     st = state["stats"]
     if cases:
-        for k in ("createConfig_error", "unnumbered", "disable_mp", "neighbor_without_advertisement", "repeated_prefix",
+        for k in ("input_with_localpref_conflict", "unnumbered", "disable_mp", "neighbor_without_advertisement", "repeated_prefix",
                   "adv_with_localpref", "large_community", "community", "neighbor_with_v4_and_v6", "multi_vrf", "multi_neighbor"):
             if st.get(k, 0) == 0:
                 raise Exception("generator degenerate: counter %s is zero: %r" % (k, st))
